@@ -242,6 +242,7 @@ PROPERTIES["C17"] = {
 
 
 PROPERTIES["C03"] = {
+    "report_mapranges": True,
     "level_text": "Bounded symbolic execution + SMT with the map-iteration order made symbolic: at every `range` over a map the solver-controlled engine forks over every remaining "
                   "entry (all n! orders the Go specification permits, a superset of what one runtime does). Self-composition: each language's real pass chain, "
                   "Schemas.Consolidate and fields_set_default are run twice on clones of one symbolic input and the two results must be deep-equal.",
